@@ -31,7 +31,9 @@ Inductive obs :=
 
 Inductive case :=
 | CMsg (alg ulen : N) (data trailing : bytes) (wire : option bytes) (back : option (N * N * bytes))
-| CRun (ee : bool) (adv : list N) (alg declared : N) (open_ok : bool) (o : outspec) (chunks : list N) (e : rend) (ob : obs).
+| CRun (ee : bool) (adv : list N) (alg declared : N) (open_ok : bool) (o : outspec) (chunks : list N) (e : rend)
+       (valid : bool)   (* header ++ out is a structurally valid TLS 1.3 Certificate message (runner's own reference parser) *)
+       (ob : obs).
 
 Definition obytes_eqb (a b : option bytes) : bool :=
   match a, b with Some x, Some y => bytes_eqb x y | None, None => true | _, _ => false end.
@@ -50,8 +52,8 @@ Definition check (c : case) : bool :=
       | Err _, None => true
       | _, _ => false
       end
-  | CRun ee adv alg declared open_ok o chunks e ob =>
-      match decompress_cert bytes (fun b => Some b) ee adv alg declared open_ok (mkR (out_of o) (map N.to_nat chunks) e), ob with
+  | CRun ee adv alg declared open_ok o chunks e valid ob =>
+      match decompress_cert bytes (fun b => if valid then Some b else None) ee adv alg declared open_ok (mkR (out_of o) (map N.to_nat chunks) e), ob with
       | Ok raw, OOk len s1 s2 full =>
           let '(a1, a2) := adler raw in
           (dlen raw =? len) && (a1 =? s1) && (a2 =? s2) &&
